@@ -64,22 +64,31 @@ func (mem *Memory) Name() string {
 func (mem *Memory) Get(key string) (*rspb.Release, error) {
 	defer unlock(mem.rlock())
 
-	keyWithoutPrefix := strings.TrimPrefix(key, "sh.helm.release.v1.")
-	switch elems := strings.Split(keyWithoutPrefix, ".v"); len(elems) {
-	case 2:
-		name, ver := elems[0], elems[1]
-		if _, err := strconv.Atoi(ver); err != nil {
-			return nil, ErrInvalidKey
-		}
-		if recs, ok := mem.cache[mem.namespace][name]; ok {
-			if r := recs.Get(key); r != nil {
-				return r.rls, nil
-			}
-		}
-		return nil, ErrReleaseNotFound
-	default:
+	name, ok := releaseNameFromKey(key)
+	if !ok {
 		return nil, ErrInvalidKey
 	}
+	if recs, ok := mem.cache[mem.namespace][name]; ok {
+		if r := recs.Get(key); r != nil {
+			return r.rls, nil
+		}
+	}
+	return nil, ErrReleaseNotFound
+}
+
+// releaseNameFromKey extracts the release name from a storage key of the form
+// "sh.helm.release.v1.<name>.v<revision>". Release names may themselves
+// contain ".v", so the revision is what follows the last occurrence.
+func releaseNameFromKey(key string) (string, bool) {
+	keyWithoutPrefix := strings.TrimPrefix(key, "sh.helm.release.v1.")
+	idx := strings.LastIndex(keyWithoutPrefix, ".v")
+	if idx < 0 {
+		return "", false
+	}
+	if _, err := strconv.Atoi(keyWithoutPrefix[idx+len(".v"):]); err != nil {
+		return "", false
+	}
+	return keyWithoutPrefix[:idx], true
 }
 
 // List returns the list of all releases such that filter(release) == true
@@ -199,15 +208,8 @@ func (mem *Memory) Update(key string, rls *rspb.Release) error {
 func (mem *Memory) Delete(key string) (*rspb.Release, error) {
 	defer unlock(mem.wlock())
 
-	keyWithoutPrefix := strings.TrimPrefix(key, "sh.helm.release.v1.")
-	elems := strings.Split(keyWithoutPrefix, ".v")
-
-	if len(elems) != 2 {
-		return nil, ErrInvalidKey
-	}
-
-	name, ver := elems[0], elems[1]
-	if _, err := strconv.Atoi(ver); err != nil {
+	name, ok := releaseNameFromKey(key)
+	if !ok {
 		return nil, ErrInvalidKey
 	}
 	if _, ok := mem.cache[mem.namespace]; ok {
